@@ -41,6 +41,9 @@ def parseOp (s : String) : Option Ctx.Op :=
   | ["cn"] => some .clone
   | ["bw"] => some .borrow
   | ["dr"] => some .drop
+  -- `px`: a panic inside the borrow scope, caught outside it: the guard is dropped while the
+  -- stack unwinds; for the contexts this is the same as leaving the scope normally
+  | ["px"] => some .drop
   | ["tk", t] => do pure (.take (← parseTarget t))
   | ["ex", t, sel] => do pure (.exec (← parseTarget t) (← parseSel sel))
   | _ => none
